@@ -2,11 +2,17 @@
    list, prod, sumbool, sumor map to OCaml's; Z, positive, N, ascii, string stay Coq datatypes. *)
 From Coq Require Import ExtrOcamlBasic.
 From Coq Require Import String Ascii.
-From MP.Model Require Import Prelude U128 SInt.
+From MP.Model Require Import Prelude U128 SInt Feed Vamm VammOps Token World Engine Runtime.
 
 Extraction Language OCaml.
 Extraction "model.ml"
   Z.add Z.mul Z.sub Z.div Z.modulo Z.eqb Z.ltb Z.leb Z.opp Z.of_nat
   sadd ssub smul sdiv schecked_add schecked_sub schecked_mul schecked_div
   sinvert sabs s_is_negative s_is_positive s_is_zero seqb sltb sgtb sleb sgeb scmp
-  s_to_string s_from_str s_store spos sneg_ szero.
+  s_to_string s_from_str s_store spos sneg_ szero
+  step_f exec_op init_world add_vamm_instance dispatch engine_execute
+  query_margin_ratio query_free_collateral get_pnl position_with_funding_payment cumulative_premium_fraction
+  read_position find_position read_vmap bal
+  q_spot q_twap_price q_is_over_spread_limit q_input_amount q_output_amount q_calc_fee q_is_over_fluctuation_limit
+  q_input_price q_output_price q_input_twap q_output_twap
+  oracle_of rf_latest rf_previous rf_twap mf_get vrun vstep.
